@@ -208,6 +208,16 @@ fn check_readers<const N: usize>(dir: &Path, id: usize, bp: &BlobParse, sh: &mut
     }
     tools::validate_index::<ArrayKey<N>>(&idx).map_err(|e| Fail("validate_index/rejects-produced-index".into(), format!("{}: {:#}", idx.display(), e)))?;
     sh.add("produced_indexes_validated", 1);
+    // the same index on its own (no blob file next to it: the tool then takes the blob size from the index header)
+    {
+        let alone_dir = new_dir("c16-alone-");
+        let alone = alone_dir.join(format!("t.{}.index", id));
+        let _ = std::fs::copy(&idx, &alone);
+        let r = tools::validate_index::<ArrayKey<N>>(&alone);
+        rm_dir(&alone_dir);
+        r.map_err(|e| Fail("validate_index/rejects-produced-index-without-blob".into(), format!("{}: {:#}", idx.display(), e)))?;
+        sh.add("produced_indexes_validated_without_blob", 1);
+    }
     let ip = parse::parse_index(&std::fs::read(&idx).unwrap_or_default());
     let expect: BTreeMap<Vec<u8>, Vec<u64>> = {
         let mut m: BTreeMap<Vec<u8>, Vec<u64>> = BTreeMap::new();
@@ -324,8 +334,15 @@ fn eval_file<const N: usize>(ctx: &Ctx, sh: &mut Shard, rng: &mut Rng, cfg: &Cfg
             let region = if p < 83 { "header" } else if (p as u64) < 83 + ip.meta_size { "filters" } else if (p as u64) < ip.leaves_offset { "tree" } else { "leaves" };
             cases.push((format!("flip@{}", region), b));
         }
-        for (name, bytes) in cases {
+        for (case_no, (name, bytes)) in cases.into_iter().enumerate() {
             std::fs::write(&ipath, &bytes).unwrap();
+            // every third damaged index is judged without its blob file (blob size then comes from the index header)
+            if case_no % 3 == 2 {
+                let _ = std::fs::remove_file(&bpath);
+                sh.add("index_damage_cases_without_blob", 1);
+            } else if !bpath.exists() {
+                std::fs::write(&bpath, orig).unwrap();
+            }
             sh.evaluations += 1;
             sh.add("index_damage_cases", 1);
             let cls: String = name.split('@').next().unwrap().to_string() + "@" + if name.starts_with("flip") { name.split('@').nth(1).unwrap() } else { "len" };
